@@ -141,7 +141,7 @@ def native_replay(binary, harness, bytes_):
     return {'rc': rc, 'failed': failed, 'stdout': so, 'stderr': se[-2000:]}
 
 
-def native_exhaust(binary, harness, alphabets, timeout=3600):
+def native_exhaust(binary, harness, alphabets, timeout=900):
     rc, so, se, dt = run([binary, 'exhaust', harness, alphabets], timeout=timeout)
     m = re.search(r'EVALUATED (\d+) REJECTED (\d+)', so)
     fails = re.findall(r'^FAILED (\S+) INPUT (\S*)', so, re.M)
